@@ -26,6 +26,7 @@ are always given explicitly).
 """
 import math
 from collections import deque
+import itertools
 from fractions import Fraction
 
 from audiolazy import Stream, blocks, overlap_add, stft, window
@@ -583,7 +584,8 @@ def gen_reuse_case(rng):
   if not any(calls[:-1]):
     calls[0] = True
   return ("reuse", rng.choice(["callable-shared-list", "cached-callable",
-                               "list-object", "stft-shared-callable"]),
+                               "list-object", "stft-shared-callable",
+                               "stft-partial-siblings"]),
           size, hop, wvals, blks, calls)
 
 
@@ -598,6 +600,34 @@ def run_reuse(ctx, case):
   else:
     wnd = lambda n: owned
   ctx.count("reuse:" + how)
+  if how == "stft-partial-siblings":
+    # several wrappers derived from ONE partial object: what one derivation
+    # passed must not leak into its siblings
+    x = [v for blk in blks for v in blk]
+    base = stft(transform=None, inverse_transform=None, before=None,
+                after=None, ola=overlap_add.list)
+    ident = lambda blk: blk
+    first = base(ident, size=size, hop=hop, wnd=list(wvals),
+                 ola_wnd=list(wvals))
+    list(itertools.islice(iter(first(list(x))), 3))
+    second = base(size=size)          # nothing but the size: hop = size, no window
+    for derived in (second(ident), base(ident, size=size)):
+      out = derived(list(x))
+      xb = blocks_expected(x, size, size)
+      want, mag = ola_expected(xb, size, size, None,
+                               gain_of(None, size, size, True))
+      got, exc, hit = drain(out, limit=len(want) + size + 8)
+      if exc is not None:
+        raise exc
+      if len(got) != len(want) or not compare(
+          ctx, case, "reuse/partial-sibling-inherits-earlier-keywords", got,
+          want, mag, False, "reuse_partial"):
+        if len(got) != len(want):
+          ctx.violation("reuse/partial-sibling-inherits-earlier-keywords",
+                        case, got_len=len(got), want_len=len(want))
+        return True
+    ctx.count("reuse:calls-compared", 2)
+    return True
   if how == "stft-shared-callable":
     # analysis and synthesis window from the same callable, identity process
     x = [v for blk in blks for v in blk]
@@ -1087,7 +1117,7 @@ def run_case(ctx, case):
 
 def finish(ctx):
   for how in ["callable-shared-list", "cached-callable", "list-object",
-              "stft-shared-callable"]:
+              "stft-shared-callable", "stft-partial-siblings"]:
     ctx.need("reuse:" + how, 50)
   ctx.need("reuse:calls-compared", 500)
   q = ctx.quick
